@@ -18,7 +18,7 @@ PROP = "C12"
 
 
 def run(tier, seed):
-    return speccheck.run(PROP, tier, seed, ["general", "rowlevel", "agg", "window", "join", "union", "general"], 300, 9000, also=("C01",),
+    return speccheck.run(PROP, tier, seed, ["general", "rowlevel", "agg", "window", "join", "union", "tall"], 300, 9000, also=("C01",),
                          extra_oracle="oracle_c12",
                          assumptions=["expression-level soundness (typeOf e = t → every value of e fits t) is assembled from the per-operator value lemmas and "
                                       "the catalogue theorems by the correspondence, not proved as one induction over expressions",
